@@ -320,6 +320,7 @@ func (f *fetcher) dedupFetch(req *http.Request, key cache.CacheKey, clientHd *he
 
 	originalClientHd := *clientHd // Copy the original client headers so the shared requests don't get a modified version
 
+	verifYield("flight.beforeDo")
 	fetchedObj, err, shared := f.group.Do(key.Hex, func() (any, error) {
 		// The result of this fetch is shared with every coalesced request, so it must not be
 		// cancelled when the one client that happens to lead it disconnects.
